@@ -246,7 +246,7 @@ def enumerateT : List (TVal α) → Nat → List (TVal α)
 def liftOp (r : Except OpErr (Prim α)) (wrap : OpErr → TErr) : Except TErr (TVal α) :=
   match r with
   | .ok p => .ok (.scalar p)
-  | .error c => .error (wrap c)
+  | .error c => .error (opFailure wrap c)
 
 mutual
 /-- `as_primitive` -/
